@@ -101,16 +101,17 @@ Sent == UNION {SeqSet(m.txs) : m \in out}
 RECURSIVE BytesOf(_)
 BytesOf(q) == IF q = <<>> THEN 0 ELSE size[Head(q)] + BytesOf(Tail(q))
 
-(* the batch a Force must pick, given the visit order v and the seen set before the call: the property-level
-   reading - walk in order, skip dead / dying / seen, take what fits, stop at the first live item that does not fit *)
+(* the batch a Force must pick, given the visit order v and the seen cache c before the call: the property-level
+   reading - walk in order, skip dead / dying / seen, take what fits (it becomes seen at once, which with a small
+   cache can push an older id out during the same walk), stop at the first live item that does not fit *)
 RECURSIVE Pick(_, _, _, _)
-Pick(v, seen0, bytes, acc) ==
+Pick(v, c, bytes, acc) ==
   IF v = <<>> THEN acc
   ELSE LET t == Head(v) IN
-       IF life[t] # "long" THEN Pick(Tail(v), seen0, bytes, acc)
+       IF life[t] # "long" THEN Pick(Tail(v), c, bytes, acc)
        ELSE IF size[t] + bytes > MaxSize THEN acc
-       ELSE IF t \in seen0 THEN Pick(Tail(v), seen0, bytes, acc)
-       ELSE Pick(Tail(v), seen0, bytes + size[t], Append(acc, t))
+       ELSE IF t \in SeqSet(c) THEN Pick(Tail(v), c, bytes, acc)
+       ELSE Pick(Tail(v), CachePut(c, t), bytes + size[t], Append(acc, t))
 
 TypeOK == SeqSet(pool) \subseteq Txs /\ SeqSet(cache) \subseteq Txs /\ Len(cache) <= CacheSize
 
@@ -118,17 +119,17 @@ TypeOK == SeqSet(pool) \subseteq Txs /\ SeqSet(cache) \subseteq Txs /\ Len(cache
        order, as long as they fit into one batch; it looks at the whole mempool unless a live transaction does not fit.
    G4  targeting: proposers - one message with the whole batch to the proposer set without ourselves (an error and
        nothing sent when there is no proposer); assigner - each transaction only to its assigned peer, never to us *)
-Want(v, seen0)   == Pick(v, seen0, 0, <<>>)
-Stopper(v, seen0) ==      \* the last visited transaction is live and did not fit after what was picked before it
+Want(v, c)    == Pick(v, c, 0, <<>>)
+Stopper(v, c) ==      \* the last visited transaction is live and did not fit after what was picked before it
   /\ v # <<>> /\ life[v[Len(v)]] = "long"
-  /\ size[v[Len(v)]] + BytesOf(Pick(SubSeq(v, 1, Len(v) - 1), seen0, 0, <<>>)) > MaxSize
+  /\ size[v[Len(v)]] + BytesOf(Pick(SubSeq(v, 1, Len(v) - 1), c, 0, <<>>)) > MaxSize
 ForceOK(p, perr) ==
-  LET want == Want(visited', SeqSet(cache)) IN
+  LET want == Want(visited', cache) IN
   /\ BytesOf(want) <= MaxSize
   /\ IF Strategy = "proposers" /\ want # <<>> /\ (p = {} \/ perr) THEN res' = "err" /\ out' = {}
      ELSE res' = "ok" /\ out' = Messages(want, p)
   /\ SeqSet(visited') \subseteq SeqSet(pool)
-  /\ SeqSet(visited') = SeqSet(pool) \/ Stopper(visited', SeqSet(cache))
+  /\ SeqSet(visited') = SeqSet(pool) \/ Stopper(visited', cache)
 Selection == [][\A p \in SUBSET Nodes : Force(p) => ForceOK(p, FALSE)]_vars
 
 (* G2  no re-gossip: while the seen cache holds every transaction, no transaction is pushed twice to the same peer,
